@@ -221,6 +221,7 @@ func (s *c12State) step(i int, op c12Op) string {
 			before := s.pl.MakeCheckpoint()
 			moved := ""
 			calls := 0
+			predPanicked := false
 			wrapped := func(t lexer.Token) bool {
 				calls++
 				if op.Inspect && moved == "" {
@@ -229,6 +230,7 @@ func (s *c12State) step(i int, op c12Op) string {
 					}
 				}
 				if op.PanicAt > 0 && calls == op.PanicAt {
+					predPanicked = true
 					panic("the predicate panics")
 				}
 				return pred(t)
@@ -237,10 +239,19 @@ func (s *c12State) step(i int, op c12Op) string {
 			var cur lexer.RawCursor
 			returned := false
 			func() {
-				defer func() { _ = recover() }()
+				defer func() {
+					if p := recover(); p != nil && !predPanicked {
+						// not the predicate's panic: PeekAny itself went wrong (C12-r11m1: an elision set that holds
+						// the EOF type and a predicate that refuses everything walked off the end of the stream)
+						msg = fmt.Sprintf("%s: PeekAny panics: %v", when, p)
+					}
+				}()
 				got, cur = s.pl.PeekAny(wrapped)
 				returned = true
 			}()
+			if msg != "" {
+				return
+			}
 			if moved != "" {
 				msg = moved
 				return
